@@ -448,15 +448,52 @@ def _cse_mapper(ctx, model):
     plain_ok = False
     for ps in handler_summaries(model, model.nodes.get("CommonSubexpression"),
                                 mcs.node):
-        if ps.term == "return" and ps.retval[0] == "call" and \
-                ps.retval[1] == "prim.wrap_in_cse":
-            a = ps.retval[2]
-            plain_ok = a[0] == ("rec", ("field", "child"), True, ()) and \
-                a[1] == ("field", "prefix")
+        if ps.term != "return":
+            continue
+        # (the wrapper may be returned directly or via the canonical table)
+        cands = [ps.retval] + [e.value for e in ps.events
+                               if e.kind == "itemwrite"
+                               and isinstance(e.value, tuple)]
+        for v in cands:
+            if isinstance(v, tuple) and v[0] == "call" and \
+                    v[1] == "prim.wrap_in_cse":
+                a = v[2]
+                plain_ok = a[0] == ("rec", ("field", "child"), True, ()) and \
+                    a[1] == ("field", "prefix")
     ctx.ob("O/CSEMapper/map_common_subexpression/plain-through-wrap_in_cse",
            plain_ok, where(mcs),
            "plain wrappers: wrap_in_cse(rec(child), prefix)" if plain_ok else
            "plain wrappers are not rebuilt as wrap_in_cse(rec(child), prefix)")
+    # a pre-existing plain wrapper and the other occurrences of its child end
+    # up in ONE wrapper: what the handler returns for a plain wrapper is the
+    # canonical-table entry under the child's key -- read from the table, or
+    # stored there on the same path
+    TABLE = ("self", "canonical_subexprs")
+    KEY = ("call", "self.get_key", (("field", "child"),), ())
+    shared = True
+    n_plain = 0
+    for ps in handler_summaries(model, model.nodes.get("CommonSubexpression"),
+                                mcs.node):
+        plain = any(pol and isinstance(c, tuple) and c[0] == "compare"
+                    and c[1] == ("Is",) and c[2] == ("typeof", NODE)
+                    for _, pol, c in ps.conds)
+        if not plain or ps.term != "return":
+            continue
+        n_plain += 1
+        rv = ps.retval
+        read = rv == ("index", TABLE, None, KEY)
+        stored = any(e.kind == "itemwrite" and e.name == "self.canonical_subexprs"
+                     and e.args == (KEY,) and e.value == rv for e in ps.events)
+        shared = shared and (read or stored)
+    ctx.ob("P/CSEMapper/map_common_subexpression/shares-with-bare-occurrences",
+           shared and n_plain >= 1, where(mcs),
+           "a plain wrapper's result is the canonical entry of its child" if
+           shared and n_plain else
+           "CSEMapper.map_common_subexpression builds a wrapper of its own for a "
+           "pre-existing plain wrapper and does not enter it in (or take it "
+           "from) canonical_subexprs under the child's key: "
+           "tag_common_subexpressions([CSE(f(x), 'foo'), f(x)]) returns two "
+           "distinct wrappers and f is evaluated twice")
 
 
 def _tagger(ctx, model):
